@@ -3,7 +3,7 @@
    statements as Definitions where only a part is proved, and non-vacuity Examples.
    Model: C14/Model.v (tied to /repo/systems/pbkvs/pbkvs.go by the correspondence check, ./check C14). *)
 From Coq Require Import List String.
-From PGV Require Import C14.Model C14.Corr C14.Witness C14.Proofs C14.ProofsFF C14.ProofsLin C14.ProofsCrashC C14.ProofsLinFF C14.ProofsAssertFF C14.ProofsLinCrash.
+From PGV Require Import C14.Model C14.Corr C14.Witness C14.Proofs C14.ProofsFF C14.ProofsLin C14.ProofsCrashA C14.ProofsCrashC C14.ProofsLinFF C14.ProofsAssertFF C14.ProofsLinCrash C14.ProofsAssertCrash C14.ProofsAssertClient C14.ProofsAssertLe3.
 Import ListNotations.
 
 (* ---------------------------------------------------------------- full statements *)
@@ -108,6 +108,79 @@ Theorem assertion_free_failure_free_partial : forall cfg input evs s e,
   exec cfg (init cfg input) evs = Some s -> step cfg s e <> AssertFail /\ step cfg s e <> TypeErr.
 Proof. exact assertion_free_failure_free_lemma. Qed.
 Print Assumptions assertion_free_failure_free_partial.
+
+(* ---- assertion freedom WITH crashes (any number of replicas): invariants, each a closed theorem, and what they give together *)
+
+(* every queued message is addressed to the owner of the queue (the assertion `req.to = self` of rcvMsg) *)
+Theorem queued_messages_addressed_to_owner : forall cfg input evs s n c m,
+  exec cfg (init cfg input) evs = Some s -> In m (queue (net s n c)) -> m_to m = n.
+Proof. exact queued_messages_addressed_lemma. Qed.
+Print Assumptions queued_messages_addressed_to_owner.
+
+(* put bodies are well formed: every lastPutBody and every body carried by a SYNC_REQ / SYNC_RESP is a put body whose
+   content is present as soon as its version is >= 1, and every replicated PUT_REQ has version >= 1 and a content
+   (so no record-field access of handleBackup / rcvSyncRespLoop can fail) *)
+Theorem put_bodies_wellformed : forall cfg input evs s,
+  Forall input_ok input -> exec cfg (init cfg input) evs = Some s ->
+  (forall r, exists ver c, r_lastPutBody (rl s r) = BPut ver c /\ (1 <= ver -> exists k v, c = Some (k, v))) /\
+  (forall n c m, In m (queue (net s n c)) -> m_src m <> CLIENT_SRC -> m_typ m = PUT_REQ ->
+     exists ver k v, m_body m = BPut ver (Some (k, v)) /\ 1 <= ver) /\
+  (forall n c m, In m (queue (net s n c)) -> m_src m <> CLIENT_SRC -> (m_typ m = SYNC_REQ \/ m_typ m = SYNC_RESP) ->
+     exists ver c, m_body m = BPut ver c /\ (1 <= ver -> exists k v, c = Some (k, v))).
+Proof. exact put_bodies_content_lemma. Qed.
+Print Assumptions put_bodies_wellformed.
+
+(* the version assertion of handleBackup: the PUT_REQ a replica is about to apply is never older than what it holds *)
+Theorem pending_put_not_older_than_receiver : forall cfg input evs s p m,
+  Forall input_ok input -> exec cfg (init cfg input) evs = Some s ->
+  is_replica cfg p = true -> r_pc (rl s p) = HandleBackup -> r_req (rl s p) = Some m -> m_typ m = PUT_REQ ->
+  Kv (r_lastPutBody (rl s p)) <= Kv (m_body m).
+Proof. exact pending_put_not_older_lemma. Qed.
+Print Assumptions pending_put_not_older_than_receiver.
+
+(* the client invariant that allows re-sends (where the requests with the client's current request number are, what a
+   serving replica will answer, what the answers in the client's queue look like) gives: rcvResp of a client never fails *)
+Theorem client_rcvResp_never_fails : forall cfg input evs s c ch,
+  Forall input_ok input -> exec cfg (init cfg input) evs = Some s -> is_replica cfg c = false ->
+  step cfg s (Ev c ch) <> AssertFail /\ step cfg s (Ev c ch) <> TypeErr.
+Proof. exact client_never_fails_lemma. Qed.
+Print Assumptions client_rcvResp_never_fails.
+
+(* together (with the structural invariant of consistency_ok): in every execution WITH crashes and client re-sends, any
+   number of replicas, no step of any process fails an assertion or a TLA+ evaluation at any label other than the two labels
+   at which a replica receives an answer (rcvSyncRespLoop, rcvReplicaRespLoop): replicaLoop, syncPrimary, sndSyncReqLoop,
+   rcvMsg, handleBackup (incl. its version assertion), handlePrimary, sndReplicaReqLoop, sndResp, failLabel and all labels of
+   the clients (clientLoop, sndReq, rcvResp with its six-conjunct assertions).
+   For rcvSyncRespLoop / rcvReplicaRespLoop the statement is false with >= 4 replicas (assertion_free_refuted). *)
+Theorem assertion_free_crash_except_replica_answer_labels_partial : forall cfg input evs s p ch,
+  Forall input_ok input -> exec cfg (init cfg input) evs = Some s -> ~ at_replica_answer_label cfg s p ->
+  step cfg s (Ev p ch) <> AssertFail /\ step cfg s (Ev p ch) <> TypeErr.
+Proof. exact assertion_free_crash_clients_lemma. Qed.
+Print Assumptions assertion_free_crash_except_replica_answer_labels_partial.
+
+(* the messages in a replica's response queue: addressed to it, sent by a backup, and either a SYNC_RESP with id 3 or a
+   PUT_RESP with the ack body (four of the conjuncts of the two remaining assertions; what is left of them is the phase
+   - SYNC_RESP during a sync, PUT_RESP with the current request id during a replication - and `from \in replicaSet \/ fd[from]`) *)
+Theorem response_messages_wellformed : forall cfg input evs s r m,
+  Forall input_ok input -> exec cfg (init cfg input) evs = Some s -> is_replica cfg r = true ->
+  In m (queue (net s r RESP)) ->
+  m_to m = r /\ m_src m = BACKUP_SRC /\
+  ((m_typ m = SYNC_RESP /\ m_id m = 3) \/ (m_typ m = PUT_RESP /\ m_body m = ACK_MSG_BODY)).
+Proof. exact response_messages_wellformed_lemma. Qed.
+Print Assumptions response_messages_wellformed.
+
+(* one half of assertion_free_statement holds outright: no step of any process, at any label, in any execution (any number of
+   replicas, crashes, client re-sends) hits a TLA+ evaluation error (missing record field, Head of an empty sequence, ...);
+   what can fail with >= 4 replicas are only the two assertions of rcvSyncRespLoop / rcvReplicaRespLoop *)
+Theorem no_tla_evaluation_error : forall cfg input evs s e,
+  Forall input_ok input -> exec cfg (init cfg input) evs = Some s -> step cfg s e <> TypeErr.
+Proof. exact no_type_error_lemma. Qed.
+Print Assumptions no_tla_evaluation_error.
+
+(* not proved: the two answer labels of a replica for NUM_REPLICAS <= 3 *)
+Definition assertion_free_crash_le3_statement : Prop :=
+  forall cfg input evs s e, NR cfg <= 3 -> Forall input_ok input ->
+    exec cfg (init cfg input) evs = Some s -> step cfg s e <> AssertFail /\ step cfg s e <> TypeErr.
 
 (* the checker used on both sides of the tie is complete: a history it rejects is not linearizable *)
 Theorem lin_checker_complete : forall h, linearizable h -> linearizable_b h = true.
